@@ -251,7 +251,7 @@ def world_slots(case):
 
 
 def save_replay(prop, case, desc):
-    d = os.path.join(env.VERIF, "replays", prop)
+    d = os.path.join(env.OUT, "replays", prop)
     os.makedirs(d, exist_ok=True)
     body = dict(case)
     body["property"] = prop
@@ -331,6 +331,8 @@ def run_property(mod, tier, seed, nproc=None, only_shards=None):
 
     # 1. regression tier: replay files of fixed defects must pass
     regress = sorted(glob.glob(os.path.join(env.VERIF, "replays", prop, "regress", "*.json")))
+    if os.environ.get("VF_NO_REGRESS"):
+        regress = []   # sensitivity experiments only: judge the generated search alone
     n_regress = 0
     for p in regress:
         n_regress += 1
@@ -425,8 +427,8 @@ def run_property(mod, tier, seed, nproc=None, only_shards=None):
         "wall_s": round(wall, 2),
         "violations": len(violations),
     }
-    os.makedirs(os.path.join(env.VERIF, "evidence"), exist_ok=True)
-    ep = os.path.join(env.VERIF, "evidence", f"{prop}.json")
+    os.makedirs(os.path.join(env.OUT, "evidence"), exist_ok=True)
+    ep = os.path.join(env.OUT, "evidence", f"{prop}.json")
     tmp = ep + ".tmp"
     with open(tmp, "w") as f:
         json.dump(evidence, f, indent=1, default=repr)
@@ -434,7 +436,7 @@ def run_property(mod, tier, seed, nproc=None, only_shards=None):
     for line in out_lines:
         print(line)
     for p, d in violations:
-        rel = os.path.relpath(p, env.VERIF)
+        rel = os.path.relpath(p, env.OUT)
         print(f"VIOLATION property={prop} replay={rel}")
         print("  " + json.dumps(d, default=repr)[:600])
     print(f"{prop} tier={tier} seed={seed} evaluations={coverage['evaluations']} "
